@@ -258,15 +258,18 @@ def compare_with_model(results):
     return diffs
 
 
-def vary(seq, nib=False):
-    """the same sequence in another container the API accepts (tuple / list / trie.typing.Nibbles for nibble paths);
-    which one is a deterministic function of the content, so that replays are exact"""
+def vary(seq, nib=False, gen=False):
+    """the same sequence in another container the API accepts (tuple / list / trie.typing.Nibbles for nibble paths; with
+    gen=True also a one-shot iterator, for arguments the library only iterates); which one is a deterministic function of
+    the content, so that replays are exact"""
     seq = tuple(seq)
-    sel = (len(seq) + sum(x if isinstance(x, int) else len(x) for x in seq[:3])) % 3
+    sel = (len(seq) + sum(x if isinstance(x, int) else len(x) for x in seq[:3])) % (4 if gen else 3)
     if sel == 0:
         return seq
     if sel == 1:
         return list(seq)
+    if sel == 3:
+        return iter(list(seq))
     if nib:
         from trie.typing import Nibbles
         try:
